@@ -418,7 +418,7 @@ def run_kani_property(pid, tier, seed, replay=None):
         only = os.environ.get("VERIF_ONLY")  # debugging aid: restrict to harnesses matching a regex
         if only:
             hs = [h for h in hs if re.search(only, h["name"])]
-        timeout = spec.get("timeout", {}).get(tier, 300 if tier == "quick" else 1500)
+        timeout = spec.get("timeout", {}).get(tier, 700 if tier == "quick" else 2400)
         # warm the dependency cache with a codegen-only build so parallel runs do not all block
         h0 = hs[0]
         log(f"[{pid}] {len(hs)} harnesses, tier={tier}, jobs={JOBS}, scratch={sc.sr}")
